@@ -13,6 +13,7 @@
 //!                                  greater_or_equal, not_equal)
 //!   bare(id)                       a host object overriding NOTHING (all trait defaults)
 //!   derived(id)                    a `#[koto_impl]` object (methods reached through `.` access)
+//!   nat_true / nat_false / nat_val native functions (log themselves) for use as metakey entries
 //! `beh` is one of val | true | false | null | unimpl | err.
 use kh::script::ScriptVm;
 use kh::*;
@@ -374,6 +375,25 @@ fn install(vm: &mut ScriptVm) {
             (_, a) => desc(a),
         }).collect());
         Ok(KValue::Null)
+    });
+    // native functions usable as metakey entries (MetaMap::add_fn style)
+    prelude.add_fn("nat_true", |ctx| {
+        let mut e = vec!["nat_true".to_string(), desc(ctx.instance())];
+        e.extend(ctx.args().iter().map(desc));
+        log(e);
+        Ok(true.into())
+    });
+    prelude.add_fn("nat_false", |ctx| {
+        let mut e = vec!["nat_false".to_string(), desc(ctx.instance())];
+        e.extend(ctx.args().iter().map(desc));
+        log(e);
+        Ok(false.into())
+    });
+    prelude.add_fn("nat_val", |ctx| {
+        let mut e = vec!["nat_val".to_string(), desc(ctx.instance())];
+        e.extend(ctx.args().iter().map(desc));
+        log(e);
+        Ok("nat".into())
     });
     prelude.add_fn("host", |ctx| Ok(KObject::from(HostFull { core: make_core(ctx.args())? }).into()));
     prelude.add_fn("host4", |ctx| Ok(KObject::from(Host4 { core: make_core(ctx.args())? }).into()));
